@@ -424,7 +424,7 @@ ERROR_REPLAYS = {"mean.": (replay_mean, {"nl": 2, "nr": 2}), "copula.": (replay_
 
 
 def main(tier):
-    bounds = {"histories_and_variants": 'copula margins also on two axes that differ in their outer points (1+2 points per axis); copula small-jump covariance with the quadrature and the matrix square root as stubs (2-d, both margins of infinite variation)',
+    bounds = {"histories_and_variants": 'copula margins also on two axes that differ in their outer points (1+2 points per axis); copula small-jump covariance with the quadrature and the matrix square root as stubs (2-d, both margins of infinite variation); mean identity on a grid that cuts its cells at a solver-chosen weighted point (2+2 points, TILDE, finite variation); replay grids at two scales (inside and beyond +-1)',
               "grids": "1-d symbolic grids up to 2+1 points (quick) / 3+3 points and 1 refinement (thorough); truncation bounds anywhere relative to +-1",
               "representations": "all four, finite/infinite activity and variation",
               "outside": "n-d small-jump covariance (vol_adjustment_ij: nquad in a process pool, sqrtm); the per-cell oscillation bound on x^2 "
